@@ -150,7 +150,7 @@ func checkC02(c *core.Ctx) {
 		if r.Intn(4) == 0 {
 			f.Track = 1 + r.Intn(4)
 		}
-		if judgeTiming(c, "random", i, p, f, randWriteOpts(r), "") && i%500 == 0 {
+		if judgeTiming(c, "random", i, p, f, randWriteOpts(r), "") && c.WantSample() {
 			c.Sample(pieceDesc(p, f))
 		}
 	})
